@@ -100,6 +100,17 @@ def cli_cases(rng, n):
             out.append(("btcdeb", ["--tx=1.5:" + d, "--select=0", "[OP_1]"], None))
             out.append(("tap", ["--tx=" + d, "--txin=" + c["fund"], "f30544d6009c8d8d94f5d030b2e844b1a3ca036255161c479db1cca5b374dd1c", "1", "51", "0"], None))
             out.append(("tap", ["--tx=" + c["spend"], "--txin=" + d, "f30544d6009c8d8d94f5d030b2e844b1a3ca036255161c479db1cca5b374dd1c", "1", "51"], None))
+    # a selected / matching input that references an output the funding transaction does not have
+    import hashlib
+    fund1 = T.make_tx(2, [(bytes(range(32)), 0, b"", 0xffffffff)], [(1000, b"\x51")], 0)
+    ftx1 = hashlib.sha256(hashlib.sha256(fund1).digest()).digest()
+    for nprev in (1, 5, 7, 0xffffffff):
+        one = T.make_tx(2, [(ftx1, nprev, b"", 0xffffffff)], [(1, b"\x51")], 0).hex()
+        two = T.make_tx(2, [(bytes(32), 0, b"", 0xffffffff), (ftx1, nprev, b"", 0xffffffff)], [(1, b"\x51")], 0).hex()
+        for argv in (["--tx=" + one, "--txin=" + fund1.hex(), "--select=0"], ["--tx=" + one, "--txin=" + fund1.hex()], ["--tx=" + two, "--txin=" + fund1.hex(), "-s1"],
+                     ["--tx=" + two, "--txin=" + fund1.hex()]):
+            out.append(("btcdeb", argv, None))
+        out.append(("tap", ["--tx=" + one, "--txin=" + fund1.hex(), "f30544d6009c8d8d94f5d030b2e844b1a3ca036255161c479db1cca5b374dd1c", "1", "51", "0"], None))
     for _ in range(n):
         r = rng.random()
         if r < 0.25:
